@@ -31,6 +31,10 @@ CHECKS = {
          "deterministic unitary bases and perturbations (no randomness); matdyn writer byte-identical to the shipped test files (selftest)", "exhaustive enumeration of permutations x phase vectors (bounded n) on the implementation", "6 C20"),
  "C07": ("complete product of 9 crystal-system tensor shapes x 3 magnitudes x zero-extras x 2 grids x 3 cell masses x 2 key orders on a duck calculator driving the real _calculate_compliances / CijVolumeBaseInterface, plus 24 real Calculators; at every positive-definite grid point K/G Voigt, Reuss, Hill vs C_iijj, C_ijij, S_iijj, S_ijij of the full fourth-rank tensor, bounds, s*c=1, rho v^2 identities in SI",
          "tensor_ref (rotational invariants selftest); CODATA constants; stiffness values on the stated alphabets", "exhaustive enumeration of tensor-shape/grid/mass alphabets on the implementation, oracle = full fourth-rank tensor algebra", "6 C07"),
+ "C11": ("full product of 24 (method, admissible order) pairs x n_V {6,7,8,12} (+{5,9,10} thorough) x 7 data laws (power law, polynomial in ln V of degree 1-5, Morse-like) x {inside, x1.2 extended grid} x shapes incl. square (3,3): exactness for power-law (and polynomial for lsq_poly) data against analytic triples, mutual consistency of the triple through integral identities, Gamma acoustic slots zero, no slot mixing, no NaN; mode plot n=0,1,2 through the real Calculator._interpolate_modes + ModePlotter with a recording axes",
+         "analytic laws validated by 40-digit differentiation (selftest); quadrature on 2001 points with an a-posteriori bound", "exhaustive enumeration of interpolation configurations on the implementation, oracle = analytic triples and quadrature identities", "6 C11"),
+ "C18": ("deviation lattice (<=2 quick, full product thorough: 3894 invocations) over mode x grid size x pressure range x sampling x static-table/system option x cell mass x 3 energy data sets x volume counts through the real run-static command; every printed cell (V, F, P, density, c_ij, VRH averages, v_p, v_s, v_phi) against an independent quadratic finite-strain fit with analytic derivative, hand unit factors and tensor_ref, with discretisation bounds from the reference's own derivatives",
+         "static_ref (own fit, own inverse interpolation, own symmetry fill); bounds are Taylor remainders propagated through the spline", "deviation-bounded / full-product exhaustive enumeration of CLI configurations on the implementation", "6 C18"),
  "C12": ("deviation lattice over 24 (method, admissible order) pairs x 10 system settings x 5 temperature grids (DT 0.5..500 K, T_MIN>=0) x 3 component sets x 3 spectra x shapes x lattice block, every configuration schema-validated and run through the real Calculator (<=2 deviations quick; full product of the 5 core dimensions thorough): dtype float64, finite isothermal everywhere, adiabatic where C_V>0 or T=0, averages/velocities where positive definite, zero gap at T=0, low-T limit",
          "well-formed synthetic inputs; positive definiteness by Cholesky of the reported stiffness", "deviation-bounded / full-product exhaustive enumeration of valid configurations on the implementation", "6 C12"),
  "C13": ("metamorphic exhaustive enumeration on 3 base data sets: all orders of q-points 2..n, mode orders (all n! thorough; generators quick), weight scales, static column orders (all for 3; transpositions+rotations+reversal for 9/13), upper case, static row orders and phonon volume-block orders (all 120 thorough); every re-presented run compared with the base run on every modulus on both grids and on K, G, v_p, V(T,P); volume-block reorder: same numbers or an error",
